@@ -46,6 +46,10 @@ class Instruction(_mixins.DictMixin, _mixins.RegisterMixin, _mixins.CodeMixin):
 
         self._unresolved_params = self._get_unresolved_params(self._params)
 
+        self._original_unresolved_params = {
+            name: self._params[name] for name in self._unresolved_params
+        }
+
     @staticmethod
     def _get_unresolved_params(params: dict) -> dict:
         callable_params = {
@@ -95,7 +99,7 @@ class Instruction(_mixins.DictMixin, _mixins.RegisterMixin, _mixins.CodeMixin):
         self._params.update(_resolved_params)
 
     def _unresolve_params(self):
-        self._params.update(self._unresolved_params)
+        self._params.update(self._original_unresolved_params)
 
     @property
     def modes(self) -> Tuple[int, ...]:
